@@ -125,6 +125,11 @@ Complete(r, how) ==
   /\ compl' = [compl EXCEPT ![r] = @ + 1]
   /\ res' = [res EXCEPT ![r] = how]
 
+\* a request encoded into a full write buffer: the buffer is flushed, the request stays in it - or, when the buffer holds
+\* no complete request at all (BufCap = 0: requests larger than the buffer), goes straight to the socket
+Kept(x) == IF BufCap = 0 THEN <<>> ELSE <<x>>
+Through(x) == IF BufCap = 0 THEN <<x>> ELSE <<>>
+
 \* an entry of the processing queue is answered: nobody waits for the placeholder of ASKING
 CompleteItem(x, how) ==
   IF x \in Reqs THEN Complete(x, how) ELSE UNCHANGED <<compl, res>>
@@ -234,8 +239,8 @@ WriterAsk ==
         /\ wreq' = NoReq /\ UNCHANGED <<proc, wbuf, wire>>
      \/ /\ Len(proc) < QCap /\ proc' = Append(proc, AskMark(wreq)) /\ w' = "asked"
         /\ \/ /\ Len(wbuf) < BufCap /\ wbuf' = Append(wbuf, AskMark(wreq)) /\ UNCHANGED wire
-           \/ /\ Len(wbuf) >= BufCap /\ connOpen /\ wire' = wire \o wbuf /\ wbuf' = <<AskMark(wreq)>>
-           \/ /\ Len(wbuf) >= BufCap /\ ~connOpen /\ ~Det /\ wbuf' = <<AskMark(wreq)>> /\ UNCHANGED wire
+           \/ /\ Len(wbuf) >= BufCap /\ connOpen /\ wire' = wire \o wbuf \o Through(AskMark(wreq)) /\ wbuf' = Kept(AskMark(wreq))
+           \/ /\ Len(wbuf) >= BufCap /\ ~connOpen /\ ~Det /\ wbuf' = Kept(AskMark(wreq)) /\ UNCHANGED wire
         /\ UNCHANGED <<connOpen, compl, res, wreq>>
   /\ UNCHANGED <<pend, quit, done, stopped, rd, rreq, replies, main, mdr, spc, sdr, stp, resets>>
 
@@ -251,10 +256,10 @@ WriterEncode ==
         /\ wbuf' = Append(wbuf, wreq) /\ w' = "handoff"
         /\ UNCHANGED <<wire, compl, res, wreq>>
      \/ /\ pend # <<>> /\ Len(wbuf) >= BufCap /\ connOpen   \* the buffer is full: it flushes by itself, the request stays in it
-        /\ wire' = wire \o wbuf /\ wbuf' = <<wreq>> /\ w' = "handoff"
+        /\ wire' = wire \o wbuf \o Through(wreq) /\ wbuf' = Kept(wreq) /\ w' = "handoff"   \* (BufCap = 0: it goes straight through)
         /\ UNCHANGED <<compl, res, wreq>>
      \/ /\ pend # <<>> /\ Len(wbuf) >= BufCap /\ ~connOpen /\ ~Det
-        /\ wbuf' = <<wreq>> /\ w' = "handoff" /\ UNCHANGED <<wire, compl, res, wreq>>
+        /\ wbuf' = Kept(wreq) /\ w' = "handoff" /\ UNCHANGED <<wire, compl, res, wreq>>
      \/ /\ pend # <<>> /\ Len(wbuf) >= BufCap /\ ~connOpen   \* that flush fails
         /\ Complete(wreq, "err") /\ w' = "exited" /\ wreq' = NoReq /\ wbuf' = <<>>
         /\ UNCHANGED wire
@@ -412,6 +417,11 @@ NoLostRequest == Stuck => \A r \in Reqs : spc[r] # "idle" => compl[r] = 1
 
 \* no sender stays blocked for ever inside Send
 NoStuckSender == Stuck => \A r \in Reqs : spc[r] \in {"idle", "done"}
+
+\* the writer is never left blocked at a hand-over with nothing on the wire that could make room: the write buffer
+\* (BufCap) must hold fewer requests than the processing queue has entries (QCap), otherwise a full queue can consist
+\* of requests that were never flushed, the backend owes no answer and nothing ever closes quit
+NoStuckWriter == Stuck => w \in {"select", "exited"}
 
 \* the reply handed to a request is the reply to that request
 PairingFIFO == rd = "decoded" /\ proc # <<>> => Head(proc) = Head(replies)
